@@ -163,6 +163,13 @@ class Grammar:
         self._closure_cache[key] = r
         return r
 
+    def empty_language(self):
+        """the language containing only the empty sequence (an accepting state without transitions)"""
+        if getattr(self, "_eps_state", None) is None:
+            self._eps_state = self._new()
+            self.accept.add(self._eps_state)
+        return frozenset([self._eps_state])
+
     def alphabet(self, L):
         seen = set(L)
         st = list(L)
@@ -260,6 +267,10 @@ def vjoin(a, b):
         return (RULE, a[1] | b[1], a[2] if a[2] == b[2] else None)
     if k == REF:
         return a
+    if k == "bool":
+        return a if a == b else None
+    if k == "ver":
+        return a if a == b else ("ver", -1)
     return a
 
 
@@ -273,9 +284,23 @@ def sjoin(a, b):
         old = out.get(l)
         new = vjoin(old, v)
         if new != old:
-            out[l] = new
+            if new is None:
+                out.pop(l, None)
+            else:
+                out[l] = new
+            changed = True
+    for l in list(out):
+        if out[l][0] == "bool" and l not in b:
+            # a flag known on one path only is unknown after the join
+            del out[l]
             changed = True
     return out, changed
+
+
+def _partition_key(st):
+    """states that disagree on a known boolean flag are kept apart (trace partitioning): `let is_x = match pair.as_rule()
+    {..}` followed by `if is_x { .. }` stays correlated with the rule the pair was narrowed to"""
+    return frozenset((l, v[1]) for l, v in st.items() if v[0] in ("bool", "ver"))
 
 
 class Interp:
@@ -302,12 +327,9 @@ class Interp:
     def _inline_policy(t, callee):
         if callee["crate"] != "tx3_lang" or callee.get("impl_trait") or callee.get("trait_default"):
             return False
-        if len(callee["blocks"]) > 150:
+        if not (callee["file"].endswith("parsing.rs") or "/parsing/" in callee["file"]):
             return False
-        tys = callee["locals"][1:1 + callee["argc"]]
-        pairish = any("pest::iterators::Pair" in ty or "Pair<" in ty for ty in tys)
-        generic = any(not n.startswith("'") for n in (callee.get("generics") or []))
-        return pairish or generic
+        return len(callee["blocks"]) <= 150
 
     def _body(self, p):
         if p not in self._bodies:
@@ -326,9 +348,16 @@ class Interp:
     # --- the operator table registered in DATA_EXPR_PRATT_PARSER ---------------------------------
     def _pratt_ops(self):
         F = self.F
-        owner = "tx3_lang::parsing::DATA_EXPR_PRATT_PARSER"
-        bodies = [f for f in F.fns.values() if f.get("owner") == owner or f["path"].startswith(owner + "::")]
-        bodies += [f for p, f in F.ctfe.items() if p == owner]
+        # found by role: whatever body of the parser crate registers operators with pest's PrattParser (a lazy static's
+        # initialiser closure, a const, a plain function) - not by the name of the static
+        bodies = []
+        for src in (F.fns, F.ctfe):
+            for f in src.values():
+                if f["crate"] != "tx3_lang":
+                    continue
+                if any(re.match(r"pest::pratt_parser::Op::<R>::(infix|prefix|postfix)$", t.get("callee") or "") for _, t in mir.calls(f)):
+                    bodies.append(f)
+        self.pratt_bodies = bodies
         prefix, postfix, infix = set(), set(), set()
         assoc = {}
         found = False
@@ -353,7 +382,7 @@ class Interp:
                     raise BrokenCheck("cannot read the rule of a Pratt operator registration")
                 {"infix": infix, "prefix": prefix, "postfix": postfix}[m.group(1)].add(rule)
         if not found:
-            raise BrokenCheck("DATA_EXPR_PRATT_PARSER initialiser not found")
+            raise BrokenCheck("no Pratt operator registration (Op::infix/prefix/postfix) found in tx3_lang")
         return {"prefix": frozenset(prefix), "postfix": frozenset(postfix), "infix": frozenset(infix), "assoc": assoc}
 
     def _rule_of_const(self, c):
@@ -483,14 +512,15 @@ class Interp:
         path = f["path"]
         self.analysed_fns.add(path)
         blocks = f["blocks"]
-        instate = {0: dict(self.params.get(path, {}))}
-        work = [0]
+        init = dict(self.params.get(path, {}))
+        instate = {0: {_partition_key(init): init}}
+        work = [(0, _partition_key(init))]
         reached = self.reached.setdefault(path, set())
         iters = 0
         while work:
-            bi = work.pop()
+            bi, pk = work.pop()
             iters += 1
-            if iters > 5000:
+            if iters > 20000:
                 raise BrokenCheck("grammar flow did not converge in " + path)
             kp, kb = self._k(f, bi)
             if kp == path:
@@ -498,7 +528,7 @@ class Interp:
             else:
                 self.reached.setdefault(kp, set()).add(kb)
                 self.analysed_fns.add(kp)
-            st = dict(instate[bi])
+            st = dict(instate[bi][pk])
             b = blocks[bi]
             for s in b["s"]:
                 self._stmt(st, s)
@@ -506,11 +536,16 @@ class Interp:
             for tgt, ost in outs:
                 if blocks[tgt]["cleanup"]:
                     continue
-                joined, changed = sjoin(instate.get(tgt), ost)
-                if changed or tgt not in instate:
-                    instate[tgt] = joined
-                    if tgt not in work:
-                        work.append(tgt)
+                parts = instate.setdefault(tgt, {})
+                k2 = _partition_key(ost)
+                if k2 not in parts and len(parts) >= 12:
+                    # too many partitions: fall back to joining into an existing one
+                    k2 = next(iter(parts))
+                joined, changed = sjoin(parts.get(k2), ost)
+                if changed or k2 not in parts:
+                    parts[k2] = joined
+                    if (tgt, k2) not in work:
+                        work.append((tgt, k2))
 
     def _stmt(self, st, s):
         lhs = s["lhs"]
@@ -519,6 +554,16 @@ class Interp:
         val = None
         if k in ("use", "cast"):
             val = self._op_val(st, rv["op"])
+            pl0 = mir.op_place(rv["op"])
+            if pl0 is not None and not pl0["p"]:
+                v0 = st.get(pl0["l"])
+                if v0 is not None and v0[0] == REF:
+                    # moving / copying a reference (e.g. the `&mut Pairs` handed to an inlined helper) keeps it a reference
+                    val = v0
+            if val is None and k == "use":
+                c = mir.op_const(rv["op"])
+                if c is not None and c.get("ty") == "bool" and "int" in c:
+                    val = ("bool", bool(c["int"]))
         elif k == "ref":
             pl = rv["pl"]
             base, v = self._deref(st, pl["l"])
@@ -535,6 +580,12 @@ class Interp:
                 val = pv if pv[0] == RULE else ("optdiscr", pv, rv["pl"]["l"])
         elif k == "agg" and "tuple" in rv and len(rv["ops"]) == 1:
             val = self._op_val(st, rv["ops"][0])
+        elif k == "agg" and rv.get("adt", "").endswith("::Option") and rv.get("variant") == "None" and "Pair" in " ".join(str(x) for x in [rv.get("adt_args", "")]):
+            val = (OPT, frozenset(), True, None)
+        elif k == "agg" and rv.get("adt", "").endswith("::Option") and rv.get("variant") == "Some" and rv["ops"]:
+            pv = self._op_val(st, rv["ops"][0])
+            if pv is not None and pv[0] == PAIR:
+                val = (OPT, pv[1], False, pv[2] if len(pv) > 2 else None)
         if lhs["p"]:
             return
         if val is not None:
@@ -591,6 +642,32 @@ class Interp:
                         st2[src] = (PAIR, frozenset(rest))
                     outs.append((t["otherwise"], st2))
                 return outs
+            if v is not None and v[0] == "bool":
+                tm = dict((dv, tb) for dv, tb in t["targets"])
+                return [(tm.get(1 if v[1] else 0, t["otherwise"]), st)]
+            if v is not None and v[0] == "rulecmp":
+                _, R, x, is_eq, src = v
+                false_t = [tb for dv, tb in t["targets"] if dv == 0]
+                true_t = t["otherwise"]
+                outs = []
+                old = st.get(src) if src is not None else None
+                origin = old[2] if (old is not None and old[0] == PAIR and len(old) > 2) else None
+                for edge_is_x, tgts in ((is_eq, [true_t]), (not is_eq, false_t)):
+                    keep = (R & {x}) if edge_is_x else (R - {x})
+                    if not keep:
+                        continue
+                    st2 = dict(st)
+                    if src is not None:
+                        st2[src] = (PAIR, frozenset(keep), origin)
+                    if origin is not None and origin[0] == "peek":
+                        pl_local, pver = origin[1], (origin[3] if len(origin) > 3 else -1)
+                        cur = st.get(pl_local)
+                        # the pairs have not been advanced since the peek (same version): what was peeked is still next
+                        if cur is not None and cur[0] == PAIRS and pver >= 0 and st.get(("v", pl_local), ("ver", 0))[1] == pver:
+                            st2[pl_local] = (PAIRS, G.restrict_first(cur[1], x, edge_is_x))
+                    for tb in tgts:
+                        outs.append((tb, st2))
+                return outs
             if v is not None and v[0] == "peekis":
                 _, pl_local, site, x = v
                 Lp = self.site_L[site]
@@ -610,19 +687,28 @@ class Interp:
                 return outs
             if v is not None and v[0] == "optdiscr":
                 opt = v[1]
+                # `peek()` returned None: nothing follows - the pairs are exhausted on that edge
+                st_none = st
+                org = opt[3] if len(opt) > 3 else None
+                if org is not None and org[0] == "peek":
+                    pl_local, pver = org[1], (org[3] if len(org) > 3 else -1)
+                    cur = st.get(pl_local)
+                    if cur is not None and cur[0] == PAIRS and pver >= 0 and st.get(("v", pl_local), ("ver", 0))[1] == pver:
+                        st_none = dict(st)
+                        st_none[pl_local] = (PAIRS, G.empty_language() if G.nullable(cur[1]) else frozenset())
                 for dv, tb in t["targets"]:
                     if dv == 0 and not opt[2]:
                         continue   # None edge infeasible
                     if dv == 1 and not opt[1]:
                         continue   # Some edge infeasible (no symbol can follow)
-                    outs.append((tb, st))
+                    outs.append((tb, st_none if dv == 0 else st))
                 # otherwise edge of an Option match is `unreachable`
                 if len(t["targets"]) < 2:
                     # `if let Some(..)` style: [[1, some]] otherwise none  /  [[0, none]] otherwise some
                     dvs = [dv for dv, _ in t["targets"]]
                     if dvs == [1]:
                         if opt[2]:
-                            outs.append((t["otherwise"], st))
+                            outs.append((t["otherwise"], st_none))
                     elif dvs == [0]:
                         if opt[1]:
                             outs.append((t["otherwise"], st))
@@ -658,12 +744,14 @@ class Interp:
                 res = (OPT, G.first(L), G.nullable(L), (base, (path, bi)))
                 st = dict(st)
                 st[base] = (PAIRS, G.step_any(L))
+                ver = st.get(("v", base), ("ver", 0))
+                st[("v", base)] = ("ver", ver[1] + 1 if 0 <= ver[1] < 3 else -1)
         elif callee == "pest::iterators::Pairs::<'i, R>::peek":
             if a0 is not None and a0[0] == PAIRS:
                 pl = mir.op_place(args[0])
                 base, _ = self._deref(st, pl["l"])
                 self.site_L[(path, bi)] = a0[1]
-                res = (OPT, G.first(a0[1]), G.nullable(a0[1]), ("peek", base, (path, bi)))
+                res = (OPT, G.first(a0[1]), G.nullable(a0[1]), ("peek", base, (path, bi), st.get(("v", base), ("ver", 0))[1]))
         elif callee in ("std::option::Option::<T>::unwrap", "std::option::Option::<T>::expect"):
             if a0 is not None and a0[0] == OPT:
                 rec = self.unwrap.setdefault(self._k(f, bi), {"maybe_none": False, "rules": set()})
@@ -683,6 +771,31 @@ class Interp:
                 dflt_false = c is not None and c.get("int") == 0
             if dflt_false:
                 res = ("peekis", a0[1], a0[2], a0[3])
+        elif callee in ("std::cmp::PartialEq::eq", "std::cmp::PartialEq::ne") and len(args) == 2 and \
+                (RULE_ADT in (resolved + " ".join(t.get("gargs") or []))):
+            va, vb = self._op_val(st, args[0]), self._op_val(st, args[1])
+            rv_, other = (va, args[1]) if (va is not None and va[0] == RULE) else ((vb, args[0]) if (vb is not None and vb[0] == RULE) else (None, None))
+            if rv_ is not None:
+                x = None
+                for o in mir.provenance(f, mir.DefUse(f), other):
+                    if o.kind == "agg" and o.rv.get("adt") == RULE_ADT:
+                        x = o.rv["variant"]
+                    elif o.kind == "const":
+                        x = self._rule_of_const(o.const) or x
+                if x is not None:
+                    res = ("rulecmp", rv_[1], x, callee.endswith("::eq"), rv_[2])
+        elif callee in ("std::ops::FnOnce::call_once", "std::ops::FnMut::call_mut", "std::ops::Fn::call") and len(args) == 2:
+            # a closure / fn item handed to an (inlined) helper and called there with a pair
+            av = self._op_val(st, args[1])
+            if av is not None and av[0] in (PAIR, PAIRS, OPT):
+                for o in mir.provenance(f, mir.DefUse(f), args[0]):
+                    tgt = None
+                    if o.kind == "agg" and "closure" in o.rv:
+                        tgt = o.rv["closure"]
+                    elif o.kind == "const" and "fn" in o.const:
+                        tgt = o.const.get("fn_resolved") or o.const["fn"]
+                    if tgt in self.F.fns:
+                        self._feed(tgt, [av], path)
         elif callee in ("std::iter::IntoIterator::into_iter", "std::ops::Try::branch", "std::clone::Clone::clone",
                         "std::result::Result::<T, E>::map_err", "std::result::Result::<T, E>::unwrap", "std::result::Result::<T, E>::expect"):
             res = a0 if a0 is not None and a0[0] != REF else (self._deref(st, a0[1])[1] if a0 is not None else None)
